@@ -301,13 +301,34 @@ func c10(tier string, args []string) int {
 						}
 					}
 				}
+				// (2d) the opening proposal of round 2 (made by participant 0, whose id is also what an
+				// absent ParticipantId decodes to) re-posted unchanged under every other event name
+				if bs.K == 0 {
+					for ph := 0; ph <= 5; ph++ {
+						base2 := phaseSnap[ph]
+						b2 := string(base2.Rounds()[round2])
+						for _, ev := range stepEvents {
+							mm := init2
+							mm.Event = ev
+							err, after, _ := lab.Step(base2, mm)
+							evals++
+							classes["xstep-init|"+ev] = true
+							if string(after.Rounds()[round2]) != b2 || len(changedProtected(base2, after)) > 0 {
+								r.Violation("C10/cross-step-replay/"+string(spf.EventInitProposal)+"->"+ev, fmt.Sprintf("the opening proposal of %s (participant 0), re-posted unchanged as %s in the same round (in %s), took effect: now %s (error: %v)", init2.SenderAddr, ev, base2.RoundState(round2), after.RoundState(round2), err), map[string]interface{}{"n": nt.n, "t": nt.t, "view": v, "from": string(spf.EventInitProposal), "as": ev, "round_state": base2.RoundState(round2)})
+							}
+						}
+					}
+				}
 				seen := map[string]bool{}
 				for j := 0; j < bs.K && j < len(rec.Log); j++ {
 					g := rec.Log[j]
-					if !addressed(rec, v, g) || g.Event == string(spf.EventInitProposal) || seen[g.Event+g.SenderAddr] {
+					if !addressed(rec, v, g) || seen[g.Event+g.SenderAddr] {
 						continue
 					}
 					seen[g.Event+g.SenderAddr] = true
+					// (the opening proposal under another round id simply opens that round: only its
+					// replay under another event name, (2b), is a replay)
+					isInit := g.Event == string(spf.EventInitProposal)
 					// (2a) cross-round: unchanged data+signature, other round id
 					ph, known := phaseOfEvent[g.Event]
 					if !known {
@@ -331,7 +352,7 @@ func c10(tier string, args []string) int {
 					err, after, _ := lab.Step(withSecond, mm)
 					evals++
 					classes["xround|"+g.Event] = true
-					if string(after.Rounds()[round2]) != b2 || len(changedProtected(withSecond, after)) > 0 {
+					if !isInit && (string(after.Rounds()[round2]) != b2 || len(changedProtected(withSecond, after)) > 0) {
 						r.Violation("C10/cross-round-replay/"+g.Event, fmt.Sprintf("the recorded %s of %s (made for round %s) re-posted under the id of another round (in %s) took effect there (error: %v)", g.Event, g.SenderAddr, rec.Round[:8], withSecond.RoundState(round2), err), map[string]interface{}{"n": nt.n, "t": nt.t, "base": bs.String(), "recorded_offset": j, "event": g.Event})
 					}
 					// (2b) cross-step: unchanged data+signature+round, other event name
